@@ -49,6 +49,17 @@ class CallMixin:
         # ---- plain names
         if isinstance(f, ast.Name) and f.id not in st.locals:
             name = f.id
+            if name == "partial" and e.args:
+                # the callable is identified syntactically by the model of functools.partial
+                e2 = ast.Call(e.func, [ast.Constant(None)] + list(e.args[1:]), e.keywords)
+                ast.copy_location(e2, e)
+                ast.fix_missing_locations(e2)
+                for st1, (args, kwargs) in self.ev_args(st, e2, cx):
+                    if isinstance(args, Raise):
+                        yield st1, args
+                        continue
+                    yield from self.BUILTIN_FUNCS[name](self, st1, args, kwargs, cx, e)
+                return
             if name in self.BUILTIN_FUNCS:
                 for st1, (args, kwargs) in self.ev_args(st, e, cx):
                     if isinstance(args, Raise):
@@ -284,6 +295,16 @@ class CallMixin:
             yield from self.EXTERNALS["hashlib.new"](self, st, [fv] + args, kwargs, cx)
             return
         V, w = self.w.V, self.w
+        if t.startswith("ref:partial") or (fv.e is not None and not t and self.o.entails(st, self.o.is_type(fv.e, "ref:partial"), cheap=True)):
+            # functools.partial(ConfigFormat.get, name, **kwargs)()
+            r = self.o.r(fv)
+            tgt = z3.simplify(V.s(st.rd("$pf_target", r)))
+            if args or kwargs:
+                raise Unsupported("call of a partial object with further arguments")
+            name = SV(st.rd("$pf_arg0", r))
+            kw = SV(st.rd("$pf_kwargs", r), "ref:dict")
+            yield from self.call_method(st, self.o.cls("ConfigFormat"), "ConfigFormat", "get", [name], {"**": kw}, cx, classmethod_=True)
+            return
         isct = z3.And(V.is_cls(fv.e), w.subclass(V.c(fv.e), "ConfigType"))
         if fv.e is not None and not t and self.o.feasible(st, isct):
             br = st.clone()
@@ -475,14 +496,14 @@ class CallMixin:
                 na = w.fresh("alloc", z3.IntSort())
                 s.assume(na >= s.alloc)
                 s.alloc = na
-            elif loc in ("fs", "rand_ctr", "stdout", "env", "ncalls", "unwritable"):
+            elif loc in ("fs", "rand_ctr", "stdout", "env", "ncalls", "unwritable", "nparse", "nload"):
                 nv = w.fresh(loc, s.g(loc).sort())
-                if loc in ("rand_ctr", "stdout", "ncalls"):
+                if loc in ("rand_ctr", "stdout", "ncalls", "nparse", "nload"):
                     s.assume(nv >= s.g(loc))
                 s.setg(loc, nv)
             elif loc.endswith("@*"):
                 a = loc[:-2]
-                if "." not in a:
+                if "." not in a and not a.startswith("$"):
                     raise Unsupported("modifies %s: name the declaring class (Class.attr@*)" % loc)
                 s.heap[a] = w.fresh("H_" + a.replace("$", "S"), s.arr(a).sort())
             elif loc == "*":
@@ -644,6 +665,15 @@ class CallMixin:
             skip_attrs = [a.value for a in e.args if isinstance(a, ast.Constant)]
             skip_objs = [self.ev1(st, a, cx) for a in e.args if not isinstance(a, ast.Constant)]
             return o.bool_(self.frame_formula(st, sp, skip_attrs, skip_objs))
+        if fn == "obj_unchanged":
+            # every attribute (and container content) of this one object is as in the pre-state
+            r = V.r(A(0).e)
+            old = sp.old
+            attrs = set(st.heap) | set(old.heap)
+            if st.epoch != old.epoch:
+                attrs |= {c + "." + a for (c, a), d in self.reg.attrs.items() if not d.startswith("rep:")} | set(w.SPECIAL)
+            eqs = [st.rd(a, r) == old.rd(a, r) for a in sorted(attrs) if not st.arr(a).eq(old.arr(a))]
+            return o.bool_(z3.And(eqs) if eqs else z3.BoolVal(True))
         if fn in ("fs_get", "fs_present", "fs_content"):
             p = o.s(A(0))
             cell = z3.Select(st.g("fs"), p)
